@@ -486,7 +486,7 @@ func Emit(p *ps.Program, pkg, fnsPkg string) *Files {
 
 	// ----- an auxiliary directive of the other kind before the program's own one (every fourth
 	// program): files with several directives, a Parallel before a Flow and vice versa
-	if p.PID%4 == 2 && (p.Quirk == "" || p.Quirk == "timealias" || p.Quirk == "params2") && strings.HasPrefix(p.Stream, "wf") {
+	if p.PID%4 == 2 && (p.Quirk == "" || p.Quirk == "timealias" || p.Quirk == "params2" || p.Quirk == "results2") && strings.HasPrefix(p.Stream, "wf") {
 		if p.Kind == "flow" {
 			e.w("func extraP%d(cx context.Context) error {\n\treturn cff.Parallel(cx, cff.Task(func() {}))\n}\n\n", p.PID)
 		} else {
@@ -537,7 +537,7 @@ func Emit(p *ps.Program, pkg, fnsPkg string) *Files {
 	}
 	site := p.Site
 	switch p.Quirk {
-	case "", "timealias", "params2", "invokevar":
+	case "", "timealias", "params2", "results2", "invokevar":
 	default:
 		site = "assign"
 	}
@@ -572,7 +572,12 @@ func Emit(p *ps.Program, pkg, fnsPkg string) *Files {
 			for i := range p.Results {
 				as = append(as, e.arg("&"+e.resName(i)))
 			}
-			e.w("\t\tcff.Results(%s),\n", strings.Join(as, ", "))
+			if p.Quirk == "results2" && len(as) >= 2 {
+				e.w("\t\tcff.Results(%s),\n", as[0])
+				e.w("\t\tcff.Results(%s),\n", strings.Join(as[1:], ", "))
+			} else {
+				e.w("\t\tcff.Results(%s),\n", strings.Join(as, ", "))
+			}
 		case "conc":
 			x := "h.Conc()"
 			if p.Quirk == "names" {
